@@ -95,6 +95,28 @@ def run(tier):
             for variant in (line, cuts(g, cfg, line), cuts(g, cfg, line)):
                 acts.append(eval_action(g.spell_line(cfg, variant), tag={"k": "line", "line": line_json(variant)}))
         blocks.append((cfg, acts))
+    # tuples with formats attached to single positions (addFormatPos): the format of a position applies to the element stored
+    # at that position however the values are spread over lists, free values and repeated uses
+    for _ in range(30 if tier == "quick" else 800):
+        cfg = g.cfg(nargs=g.r.randint(1, 3), kinds=["tup", "tup", "flag"], constraints=False, allow_pos=False)
+        tups = [i + 1 for i, a in enumerate(cfg["args"]) if a["kind"] == "tup"]
+        if not tups:
+            continue
+        for i in tups:
+            a = cfg["args"][i - 1]
+            a["mand"] = False; a["multi"] = g.r.random() < 0.6; a["checks"] = []
+            a["fmtpos"] = [{"p": p_, "f": g.r.choice(["upper", "lower"])} for p_ in g.r.sample([0, 1, 1, 2], g.r.randint(1, 3))]
+        acts = []
+        for _ in range(nlines):
+            line = []
+            for i in g.r.sample(tups, g.r.randint(1, len(tups))):
+                vals = [str(g.r.randint(-99, 999)), "".join(g.r.choice("abcXYZq9_") for _ in range(g.r.randint(1, 6))), str(g.r.randint(-99, 999))]
+                line.append([i, vals])
+            for variant in (line, cuts(g, cfg, line), cuts(g, cfg, line), cuts(g, cfg, cuts(g, cfg, line))):
+                words = g.spell_line(cfg, variant)
+                if words is not None:
+                    acts.append(eval_action(words, tag={"k": "line", "line": line_json(variant)}))
+        blocks.append((cfg, acts))
     script2 = os.path.join(c.wd, "random.ndjson")
     write_cases(script2, blocks)
     rej, tr = run_script(c, exe, script2, "T")
